@@ -10,7 +10,7 @@ ID = "C07"
 THEOREMS = ["C07_zrange", "C07_zrange_sorted", "C07_iterRange", "C07_start_pos", "C07_rangeShape",
             "C07_rangeShapeRef", "C07_ref_post", "C07_dispatch", "C07_dispatch_owned", "C07_coiter", "C07_coiterRef",
             "C07_project", "C07_project_compressed", "C07_project_window", "C07_project_sorted", "C07_prune", "C07_lazy_idempotent",
-            "C07_fromLazy", "C07_fromLazy_applies", "C07_model_meets_spec"]
+            "C07_fromLazy", "C07_fromLazy_applies", "C07_history", "C07_model_meets_spec"]
 COQ_IMPORTS = "From FT Require Import Model.Base Model.Obs Model.C07Iter Model.C07IterCheck."
 CHECK_VO = ["Model/C07IterCheck.v"]
 CHECKER = "c07_checker"
@@ -29,7 +29,7 @@ RULE = ("case = (one fiber of depth 1-2 over coordinates -4..8 with absent / exp
         "iterOccupancy/iterRange/iterActive/__iter__ with every legal start_pos or none, "
         "iterShape/iterActiveShape/iterRangeShape(+Ref) with steps 1-3 and ranges incl. empty, inverted, "
         "beyond shape, coiter*Shape(+Ref) over 1-3 fibers traversed twice, project with k in -3..3 \\ 0, "
-        "b in -7..5, optional interval, legal start_pos, traversed twice + fromLazy, iterRange windows over a projection, prune with a "
+        "b in -7..5, optional interval, legal start_pos, traversed twice + fromLazy, iterRange windows over a projection, read / iterRangeShapeRef (growing) / traverse histories, prune with a "
         "predicate on (index, coordinate, payload) traversed twice + fromLazy); observation = yielded "
         "(coordinate, payload value, position of the payload object in the fiber afterwards), stored "
         "elements afterwards, getSavedPos(). distinct = distinct canonical JSON of the case; "
@@ -243,14 +243,14 @@ def gen_case(rng, depth=None, zero_only=False, nops=None, kinds=None, none_defau
 
 def streams(tier, rng):
     big = tier != "quick"
-    n = 700 if not big else 12000
+    n = 600 if not big else 12000
     yield ("random", [gen_case(rng) for _ in range(n)], False)
     yield ("all-default", [gen_case(rng, depth=1, zero_only=True, kinds=["project", "prune", "occ", "shape", "iter"])
                            for _ in range(60 if not big else 600)], False)
     yield ("lazy", [gen_case(rng, kinds=["project", "project", "prune", "window"]) for _ in range(250 if not big else 4000)], False)
     yield ("boundary", boundary_cases(rng, 120 if not big else 1500), False)
-    yield ("histories", [gen_case(rng, kinds=["grow"]) for _ in range(150 if not big else 2000)], False)
-    yield ("none-default", [gen_case(rng, none_default=True) for _ in range(120 if not big else 1500)], False)
+    yield ("histories", [gen_case(rng, kinds=["grow"]) for _ in range(100 if not big else 2000)], False)
+    yield ("none-default", [gen_case(rng, none_default=True) for _ in range(80 if not big else 1500)], False)
     if big:
         yield ("exhaustive-4coords", exhaustive_cases(), True)
 
@@ -320,6 +320,7 @@ def describe(case):
             "any_start_pos": any(o.get("sp") is not None for o in case["ops"]),
             "reversing_projection": any(o["op"] in ("project", "window") and o["k"] < 0 for o in case["ops"]),
             "ref_mode": any(o.get("ref") for o in case["ops"]),
+            "history": any(o["op"] == "grow" for o in case["ops"]),
             "ops": len(case["ops"])}
 
 
@@ -530,6 +531,16 @@ def repro_py(case):
             "import c07\ncase = %r\nfor o, r in zip(case['ops'], c07.run_impl(case)): print(o, '->', r)\n" % (case,))
 
 
+def _clear_sp(o):
+    """a start_pos is legal relative to the stored elements and the range: drop it when those change"""
+    while True:
+        if o.get("sp") is not None:
+            o["sp"] = None
+        if o["op"] != "grow":
+            return
+        o = o["then"]
+
+
 def shrinks(case):
     for i in range(len(case["ops"])):
         if len(case["ops"]) > 1:
@@ -542,8 +553,12 @@ def shrinks(case):
         for i in range(len(case["es"])):
             c = copy.deepcopy(case)
             del c["es"][i]
-            if c["ops"][0].get("sp") is not None:
-                c["ops"][0]["sp"] = None
+            _clear_sp(c["ops"][0])
+            yield c
+        if o["op"] == "grow":
+            c = copy.deepcopy(case)
+            c["ops"] = [o["then"]]
+            _clear_sp(c["ops"][0])
             yield c
         for i in range(len(case["others"])):
             c = copy.deepcopy(case)
@@ -553,6 +568,7 @@ def shrinks(case):
             if case[key] is not None:
                 c = copy.deepcopy(case)
                 c[key] = None
+                _clear_sp(c["ops"][0])
                 yield c
         if o.get("iv") is not None:
             c = copy.deepcopy(case)
